@@ -116,11 +116,11 @@ func (t Tukey) TransformComplex(seq []complex128) []complex128 {
 	default:
 		alphaL := t.Alpha * float64(len(seq)-1)
 		width := int(0.5*alphaL) + 1
-		for i, v := range seq[:width] {
+		for i := range seq[:width] {
 			w := 0.5 * (1 - math.Cos(2*math.Pi*float64(i)/alphaL))
-			v = complex(w*real(v), w*imag(v))
-			seq[i] = v
-			seq[len(seq)-1-i] = v
+			j := len(seq) - 1 - i
+			seq[i] = complex(w*real(seq[i]), w*imag(seq[i]))
+			seq[j] = complex(w*real(seq[j]), w*imag(seq[j]))
 		}
 		return seq
 	}
